@@ -28,7 +28,7 @@ def C02(tier):
 
 
 def C04(tier):
-    return _count('C04', ['C04'], ['gregory-quota-checked', 'meek-quota-checked', 'exclusion-checked', 'surplus-choice-checked'], tier)
+    return _count('C04', ['C04', 'C04q'], ['gregory-quota-checked', 'meek-quota-checked', 'exclusion-checked', 'surplus-choice-checked', 'qpq-quota-checked'], tier)
 
 
 def C05(tier):
